@@ -298,7 +298,15 @@ def pmap(ctx, modname, funcname, items, builddir, procs=None, env=None, chunks=1
         for a in args:
             ctx.merge(_call(a))
         return
+    # ProcessPoolExecutor (not multiprocessing.Pool): a worker that dies -- killed, or
+    # std::terminate in a native kernel -- raises BrokenProcessPool instead of hanging the run
+    import concurrent.futures as cf
+    from concurrent.futures.process import BrokenProcessPool
+
     mp = multiprocessing.get_context("spawn")
-    with mp.Pool(procs, initializer=_worker_init, initargs=(builddir, env or {})) as pool:
-        for exported in pool.imap(_call, args, chunksize=chunks):
-            ctx.merge(exported)
+    with cf.ProcessPoolExecutor(procs, mp_context=mp, initializer=_worker_init, initargs=(builddir, env or {})) as ex:
+        try:
+            for exported in ex.map(_call, args, chunksize=chunks):
+                ctx.merge(exported)
+        except BrokenProcessPool as e:
+            raise HarnessError("HARNESS-WORKER-DIED: a pool worker terminated abruptly (%s)" % e)
